@@ -14,6 +14,8 @@ import (
 	"cosmossdk.io/math"
 	sdk "github.com/cosmos/cosmos-sdk/types"
 	"github.com/cosmos/cosmos-sdk/types/query"
+	"google.golang.org/grpc/codes"
+	"google.golang.org/grpc/status"
 
 	dispatchertypes "github.com/noble-assets/orbiter/v2/types/component/dispatcher"
 	fwdtypes "github.com/noble-assets/orbiter/v2/types/controller/forwarding"
@@ -135,7 +137,7 @@ func checkC13(tier string) *Report {
 	}
 	depth := 2
 	if full {
-		depth = 3
+		depth = 4
 	}
 	x := &Explorer{Rep: rep, Prefix: alpha, Depth: depth, Budget: budgetFromEnv(map[string]int{"quick": 8, "thorough": 90}[tier])}
 	x.OnState = func(wk *Worker, n Node, ctx sdk.Context, _ any) {
@@ -228,7 +230,7 @@ func c13CheckLedger(rep *Report, w *World, ctx sdk.Context, ledgerSig string, op
 		if found {
 			got = in + "/" + out
 		}
-		if err != nil && want == "" && strings.Contains(err.Error(), "invalid") {
+		if err != nil && want == "" && status.Code(err) == codes.InvalidArgument {
 			continue // a near-miss key that is not a valid identifier at all
 		}
 		if err != nil || got != want {
@@ -250,7 +252,7 @@ func c13CheckLedger(rep *Report, w *World, ctx sdk.Context, ledgerSig string, op
 					want = c2.N
 				}
 			}
-			if err != nil && want == 0 && strings.Contains(err.Error(), "invalid") {
+			if err != nil && want == 0 && status.Code(err) == codes.InvalidArgument {
 				continue
 			}
 			if err != nil || (found && n != want) || (!found && want != 0) {
